@@ -139,3 +139,10 @@ package gossip
 //@                               && wLeft == s.nodes[gNode()].Left && wUnreach == s.nodes[gNode()].Unreachable
 //@                               && (gKey() in s.nodes[gNode()].Entries ==> s.nodes[gNode()].Entries[gKey()].Internal == isInternalKey(gKey())))
 //@     && (!(gNode() in s.nodes) ==> !wHas && !wLeft && !wUnreach))
+
+// Ownership (C05, C17, C20): the local node's application keys are written
+// only through Gossip.UpsertLocal/DeleteLocal (called by the server's syncer);
+// inside the package the local writes are those two, LeaveLocal and CompactLocal.
+//@ callers-only[local-upsert] (*clusterState).UpsertLocal : (*Gossip).UpsertLocal serves C05 C17 C20
+//@ callers-only[local-delete] (*clusterState).DeleteLocal : (*Gossip).DeleteLocal serves C05 C17 C20
+//@ callers-only[local-leave] (*clusterState).LeaveLocal : (*Gossip).Leave serves C11 C17 C20
